@@ -3,7 +3,6 @@ Various utility functions for mapping constrained sensors locations with the col
 indices for class GQR.
 """
 
-import operator
 import os
 import sys
 
@@ -916,7 +915,7 @@ class Cylinder(BaseConstraint):
                     and x[i] <= self.center_x + self.height / 2
                 )
         if self.loc.lower() == "in":
-            return map(operator.not_, inFlag)
+            return np.logical_not(inFlag)
         else:
             return inFlag
 
